@@ -9,7 +9,7 @@
    every prefix of an event list is an event list, so every statement holds at every crash point. *)
 From AV Require Import Base.Util Model.Consumer Model.ConsumerLog Model.ConsumerLogFifo Model.ConsumerLogSeg Model.ConsumerLogC03
   Proofs.ConsumerC02ReqRun Proofs.ConsumerC02PwRun Proofs.ConsumerC03PwbRun Proofs.ConsumerC03Commit Proofs.ConsumerC03CommitRun
-  Proofs.ConsumerC03Req2Run Proofs.ConsumerC03Resume.
+  Proofs.ConsumerC03Req2Run Proofs.ConsumerC03Resume Proofs.ConsumerC03NoFuel.
 
 (* At most one commit request is in flight, and the public last_committed_offset (read at the end of every step) only
    ever holds the offset carried by a commit request the broker acknowledged or the offset an offset-fetch reply
@@ -126,7 +126,8 @@ Theorem C03_resume_position : forall fuel c m b v, 0 <= v ->
   /\ s_foff (resumed c m b v) = v + 1 /\ s_lc (resumed c m b v) = Some v.
 Proof. intros. split; [apply resume_second_step; assumption | split; reflexivity]. Qed.
 Print Assumptions C03_resume_position.
-(* ... and with nothing stored (-1) it resolves its position by the auto_offset_reset policy instead. *)
+(* ... and with nothing stored (-1) it resolves its position by the auto_offset_reset policy instead (and records
+   last_committed_offset = None: F-C03-4, fix b73c7f1). *)
 Theorem C03_resume_nothing_stored : forall fuel c m b,
   snd (step fuel (after_start c m b) (EReqOk (-1)))
   = [OOffReq (if c_reset c =? 2 then OFF_LATEST else OFF_EARLIEST); OEnd None None].
@@ -151,6 +152,45 @@ Theorem C03_resume : forall fuel c maxatt buf v rest L,
              /\ (l_nx gh = None -> l_D gh = [] /\ l_g gh = []).
 Proof. exact resume_run. Qed.
 Print Assumptions C03_resume.
+
+(* ---- without the fuel hypothesis ----
+   By fuel_enough (Proofs/ConsumerFuelEnoughRun.v): every run from a configuration with auto_commit_every_n >= 0 has a
+   fuel f0 from which on the interpreter never gives up; the run-level theorems above therefore hold for every event
+   list outright, at every fuel >= f0 (the run itself no longer depends on the fuel there: C13_fuel_monotone). *)
+Theorem C03_no_delivery_after_failure_any_fuel : forall c maxatt buf evs, 0 <= c_acn c -> exists f0, forall fuel, (f0 <= fuel)%nat ->
+  exists b, mon_run_s pwb_ev pwb_out pwb0 (run_steps fuel (init c maxatt buf) evs)
+            = Some (mkPB (pw_abs None (fst (run_events fuel (init c maxatt buf) evs))) b)
+            /\ (b = true -> dead (fst (run_events fuel (init c maxatt buf) evs)) = true).
+Proof. exact pwb_any_fuel. Qed.
+Print Assumptions C03_no_delivery_after_failure_any_fuel.
+Theorem C03_commit_le_processed_any_fuel : forall c maxatt buf evs, 0 <= c_acn c -> exists f0, forall fuel, (f0 <= fuel)%nat ->
+  exists g, mon_run_s c3_ev c3_out c30 (run_steps fuel (init c maxatt buf) evs) = Some g
+            /\ c3_inv g
+            /\ b_pw (m_b g) = pw_abs None (fst (run_events fuel (init c maxatt buf) evs))
+            /\ (b_bad (m_b g) = true -> dead (fst (run_events fuel (init c maxatt buf) evs)) = true).
+Proof. exact c3_any_fuel. Qed.
+Print Assumptions C03_commit_le_processed_any_fuel.
+Theorem C03_store_is_processed_any_fuel : forall c maxatt buf evs, 0 <= c_acn c -> exists f0, forall fuel, (f0 <= fuel)%nat ->
+  exists g, mon_run_s c3_ev c3_out c30 (run_steps fuel (init c maxatt buf) evs) = Some g
+            /\ processed_end g (m_store g) /\ Forall (processed_end g) (m_sent g)
+            /\ match m_co g with Some off => processed_end g off | None => True end.
+Proof. exact c3_store_any_fuel. Qed.
+Print Assumptions C03_store_is_processed_any_fuel.
+Theorem C03_single_commit_any_fuel : forall c maxatt buf evs, 0 <= c_acn c -> exists f0, forall fuel, (f0 <= fuel)%nat ->
+  mon_run req2_ev req2_out q20 (model_obs fuel c maxatt buf evs) = Some (req2_abs (fst (run_events fuel (init c maxatt buf) evs))).
+Proof. exact req2_any_fuel. Qed.
+Print Assumptions C03_single_commit_any_fuel.
+Theorem C03_resume_any_fuel : forall c maxatt buf v rest L,
+  c_group c = true -> 0 <= c_acn c -> 0 <= v -> increasing L ->
+  exists f0, forall fuel, (f0 <= fuel)%nat ->
+  honest_run L 0 (run_steps fuel (init c maxatt buf) (EStart OFF_COMMITTED :: EReqOk v :: rest)) ->
+  no_resolve (run_steps fuel (resumed c maxatt buf v) rest) = true ->
+  exists gh, mon_run_s log_ev log_out log0 (run_steps fuel (init c maxatt buf) (EStart OFF_COMMITTED :: EReqOk v :: rest)) = Some gh
+             /\ l_D gh ++ l_g gh = l_E gh
+             /\ (forall n, l_nx gh = Some n -> v + 1 <= n /\ l_E gh = seg (v + 1) n L)
+             /\ (l_nx gh = None -> l_D gh = [] /\ l_g gh = []).
+Proof. exact resume_any_fuel. Qed.
+Print Assumptions C03_resume_any_fuel.
 
 (* ---- non-vacuity ---- *)
 (* a commit of an offset whose block has been handed to the processor but not completed is rejected *)
